@@ -12,10 +12,13 @@
    may be skipped only as a duplicate under the caller's unique filter or by a call documented to discard (first/one/
    scalar*/close), nothing is delivered after close, exception classes of one()/first()/scalar_one().
 
-   The program under test holds a base Result `b` and at most one filtered view `v` (ScalarResult / MappingResult).
+   The program under test holds a base Result `b`, at most one filtered view `v` (ScalarResult / MappingResult) and at most one
+   iterator object `it` (iter(b) / iter(v)) that it resumes between other calls.
    Named deviations (pinned-tree behaviour that contradicts the property; FALSE = documented behaviour):
      DevViewUniqueStale  ScalarResult/MappingResult.unique() keeps the memoized row getters
      DevFullFetchmany0   FullyBufferedCursorFetchStrategy.fetchmany(0) soft-closes although rows remain
+   (three further defects of the pinned tree - MergedResult never hard-closed, iterators resumed after close/exhaustion - have no
+   deviation constant: the spec states the documented behaviour and the replay reports them, see known_findings.d/C10.json)
    Families (how closure is reported is a per-family fact, not idealised):
      iter-backed ("iter","chunk","merged"): fetchmany never closes; first()/one() hard-close even when already exhausted
      cursor-backed ("default","buffered","full"): attached/soft/hard; once soft, hard_close requests of fetchone are ignored *)
